@@ -1,4 +1,5 @@
 (* C16/Properties.v — the property theorems for C16 and nothing else. *)
+From IoraVerif Require Import Common.Bytes Common.Search C15.Model C16.Wire C16.WireProofs.
 From IoraVerif Require Import C16.Model C16.Proofs.
 From Coq Require Import Permutation.
 
@@ -65,6 +66,33 @@ Theorem http_always_answers : forall r,
 Proof. exact respond_none. Qed.
 Print Assumptions http_always_answers.
 
+(* W1. On the wire, byte for byte (HttpResponse::toWireFormat = [wire]): whatever the body contains - blank lines
+       included - the FIRST blank line of a serialised response is the one written after the last header field, provided
+       the status line and the field lines contain no CR (and no field line is empty): the peer's header block is exactly
+       status line + fields, and everything behind it is the body. *)
+Theorem http_response_first_blank_line : forall sl lines body,
+  no_cr sl = true -> Forall line_ok lines ->
+  find_pat CRLF2 (wire sl lines body) = Some (wire_head sl lines, body).
+Proof. exact wire_first_blank_line. Qed.
+Print Assumptions http_response_first_blank_line.
+
+(* W2. "The Content-Length equals the body bytes that follow", end to end: a peer that frames the serialised response
+       by Content-Length = |body| - the client framer proved exact in C15 - is handed exactly the body, and bytes of a
+       following response are reported as surplus, never mixed into it. *)
+Theorem http_response_content_length_consistent_on_the_wire : forall sl lines body next cap r hlen crest cdec,
+  no_cr sl = true -> Forall line_ok lines ->
+  find_pat CRLF2 (wire sl lines body ++ next) = Some (wire_head sl lines, body ++ next) /\
+  body_step cap r (ContentLength (lenN body)) hlen (body ++ next) crest cdec =
+  FDone (set_body r body) (match next with [] => false | _ => true end).
+Proof. exact wire_content_length_consistent. Qed.
+Print Assumptions http_response_content_length_consistent_on_the_wire.
+
+(* W3. "name: value" is such a line whenever neither part contains CR. *)
+Theorem http_response_field_lines_are_good : forall kv,
+  no_cr (fst kv) = true -> no_cr (snd kv) = true -> line_ok (field_line kv).
+Proof. exact field_line_ok. Qed.
+Print Assumptions http_response_field_lines_are_good.
+
 (* ------------------------------------------------ non-vacuity *)
 Example http_demo :
   respond (mkReq None Matched false false (HContent 201 5)) = Some (mkResp 201 (Some 5) 5 false) /\
@@ -73,3 +101,10 @@ Example http_demo :
   respond (mkReq (Some 400) Matched false false (HContent 200 1)) = Some (mkResp 400 (Some 1) 1 true) /\
   c_sent (crun 3 cinit [Extract; Extract; Extract; Take; Take; Take; Finish 2; Finish 0; Finish 1]) = [2; 0; 1]%nat.
 Proof. vm_compute. repeat split. Qed.
+
+(* a body full of blank lines does not move the header boundary *)
+Example wire_demo :
+  find_pat CRLF2 (wire [72;84;84;80;47;49;46;49;32;50;48;48;32;79;75]
+                       [field_line ([67;76], [52])] [13;10;13;10])
+  = Some ([72;84;84;80;47;49;46;49;32;50;48;48;32;79;75;13;10;67;76;58;32;52], [13;10;13;10]).
+Proof. vm_compute. reflexivity. Qed.
